@@ -604,9 +604,12 @@ end subroutine tl
 PSY = {}
 
 
-def _psy(name, api, alg, dm, tiers=("quick", "thorough"), pre=()):
+def _psy(name, api, alg, dm, tiers=("quick", "thorough"), pre=(),
+         quick_only=None):
+    """quick_only: in the quick tier the seed is only combined with the
+    named transformation classes (all classes in the thorough tier)."""
     PSY[name] = {"api": api, "alg": alg, "dm": dm, "tiers": tiers,
-                 "pre": list(pre)}
+                 "pre": list(pre), "quick_only": quick_only}
 
 
 _psy("lf_single_dm", "dynamo0.3", "dynamo0p3/1_single_invoke.f90", True,
@@ -641,7 +644,8 @@ _psy("lf_kmi_clash", "dynamo0.3", "dynamo0p3/4_multikernel_invokes.f90",
          ("KernelModuleInlineTrans", {}, {"t": "node", "p": [0, 0, 3, 0]}, {}),
          ("Dynamo0p3KernelConstTrans", {}, {"t": "node", "p": [0, 1, 3, 0]},
           {"number_of_layers": 20}),
-     ], tiers=("thorough",))
+     ], quick_only=["KernelModuleInlineTrans", "OMPTaskTrans", "InlineTrans",
+                    "Dynamo0p3KernelConstTrans", "ACCRoutineTrans"])
 _psy("lf_coloured", "dynamo0.3", "dynamo0p3/1_single_invoke.f90", False,
      pre=[("Dynamo0p3ColourTrans", {}, {"t": "node", "p": [0, 0]}, {})],
      tiers=("thorough",))
